@@ -1171,4 +1171,42 @@ theorem histogram_eq_histogramE (xs : List Rat) (n : Nat) (hn : 1 ≤ n) (h : mi
   intro x hx
   exact binOf_eq_binByEdges _ _ h n hn x ((minL_spec xs hne).2 x hx) ((maxL_spec xs hne).2 x hx)
 
+/-! ### an empty class has moment zero: the quotient is `0/0`, never `x/0` with `x ≠ 0` -/
+
+theorem sumR_zipWith_zero (h cs : List Rat) (hnn : ∀ x ∈ h, 0 ≤ x) (hz : sumR h = 0) :
+    sumR (List.zipWith (· * ·) h cs) = 0 := by
+  induction h generalizing cs with
+  | nil => simp
+  | cons a t ih =>
+    have ha := hnn a (by simp)
+    have ht := sumR_nonneg t (fun x hx => hnn x (by simp [hx]))
+    simp only [sumR_cons] at hz
+    have a0 : a = 0 := by linarith
+    have t0 : sumR t = 0 := by linarith
+    cases cs with
+    | nil => simp
+    | cons c cs =>
+      simp only [List.zipWith_cons_cons, sumR_cons, a0, zero_mul, zero_add]
+      exact ih cs (fun x hx => hnn x (by simp [hx])) t0
+
+theorem prefix_moment_zero (hist : List Nat) (cs : List Rat) (i : Nat)
+    (h : (cutSums hist cs i).1 = 0) : (cutSums hist cs i).2.2.1 = 0 := by
+  unfold cutSums at h ⊢
+  simp only at h ⊢
+  rw [List.take_zipWith]
+  apply sumR_zipWith_zero _ _ _ h
+  intro x hx
+  obtain ⟨k, -, rfl⟩ := List.mem_map.mp (List.mem_of_mem_take hx)
+  exact Nat.cast_nonneg k
+
+theorem suffix_moment_zero (hist : List Nat) (cs : List Rat) (i : Nat)
+    (h : (cutSums hist cs i).2.1 = 0) : (cutSums hist cs i).2.2.2 = 0 := by
+  unfold cutSums at h ⊢
+  simp only at h ⊢
+  rw [List.drop_zipWith]
+  apply sumR_zipWith_zero _ _ _ h
+  intro x hx
+  obtain ⟨k, -, rfl⟩ := List.mem_map.mp (List.mem_of_mem_drop hx)
+  exact Nat.cast_nonneg k
+
 end Pew.Otsu
